@@ -223,13 +223,24 @@ def gen_declarative(r):
         r.shuffle(keys)
         els.append({k2: e[k2] for k2 in keys})
     data = {"elements": els}
+    rec_alias = None
+    wires = [i for i, e in enumerate(els) if e.get("type") == "line" and "name" not in e and "place_after" not in e]
+    if len(wires) >= 1 and r.random() < 0.3:
+        # the same dictionary object used twice in the element list (what a YAML anchor / alias produces)
+        i = r.choice(wires)
+        els.insert(r.randint(i + 1, len(els)), dict(els[i]))
+        j = [k for k, e in enumerate(els) if e == els[i] and k != i][0]
+        rec_alias = [[["elements", i], ["elements", j]]]
     if r.random() < 0.8:
         data["unit"] = unit
     if r.random() < 0.3 and named:
         sol = {"type": r.choice(["dc", "complex", "real"])}
         sol[r.choice(["voltages", "currents", "powers"])] = [{"name": r.choice(named + ["nope"])}]
         data["solution"] = sol
-    return {"kind": "value", "v": enc(data)}
+    rec = {"kind": "value", "v": enc(data)}
+    if rec_alias:
+        rec["alias"] = rec_alias
+    return rec
 
 
 def plan(seed, overrides=None):
@@ -242,6 +253,7 @@ def plan(seed, overrides=None):
         "nest_p": rc.choice([0.2, 0.5, 0.9]),
         "wrap_p": rc.choice([0.0, 0.3]),
         "fault_mode": rc.choice(["none", "none", "io", "io", "interrupt", "mixed"]),
+        "mtime_mode": rc.choice(["fine", "fine", "coarse", "frozen"]),
         "buffer_size": rc.choice([1, 3, 7, 64, 512, 8192]),
         "n_drawings": rc.randint(1, 3),
         "flags": rc.random() < 0.8,
